@@ -375,6 +375,44 @@ Section Facts.
       rewrite IH. unfold p_set_having. cbn. now rewrite <- app_assoc.
   Qed.
 
+  (* the list-valued parts of the other statements: every call appends, in call order, and touches nothing else *)
+  Theorem update_set_accumulates b (items : list (string * exp)) :
+    fold_left (fun r it => call "Set" [AStr (fst it); AExp (snd it)] r) items (Some (EUpdate b))
+    = Some (EUpdate (mkUpd (u_with b) (u_table b) (u_alias b) (u_set b ++ items) (u_from b) (u_where b) (u_returning b))).
+  Proof.
+    revert b. induction items as [|[c v] r IH]; intro b; cbn [fold_left].
+    - rewrite app_nil_r. now destruct b.
+    - change (call "Set" [AStr (fst (c, v)); AExp (snd (c, v))] (Some (EUpdate b)))
+        with (Some (EUpdate (mkUpd (u_with b) (u_table b) (u_alias b) (u_set b ++ [(c, v)]) (u_from b) (u_where b) (u_returning b)))).
+      rewrite IH. cbn. now rewrite <- app_assoc.
+  Qed.
+
+  Theorem insert_values_accumulate b (rows : list (list exp)) :
+    fold_left (fun r row => call "Values" [AExps row] r) rows (Some (EInsert b))
+    = Some (EInsert (ins_set V b (i_alias b) (i_cols b) (i_default b)
+                       (match rows with [] => i_values b | _ => Some (match i_values b with Some l => l | None => [] end ++ rows) end)
+                       (i_query b) (i_ctargets b) (i_ctwhere b) (i_cconstraint b) (i_caction b) (i_cset b) (i_cwhere b) (i_returning b))).
+  Proof.
+    revert b. induction rows as [|row r IH]; intro b; cbn [fold_left].
+    - now destruct b.
+    - change (call "Values" [AExps row] (Some (EInsert b)))
+        with (Some (EInsert (ins_set V b (i_alias b) (i_cols b) (i_default b)
+                               (Some (match i_values b with Some l => l | None => [] end ++ [row]))
+                               (i_query b) (i_ctargets b) (i_ctwhere b) (i_cconstraint b) (i_caction b) (i_cset b) (i_cwhere b) (i_returning b)))).
+      rewrite IH. unfold ins_set. cbn. rewrite <- app_assoc. destruct r; reflexivity.
+  Qed.
+
+  Theorem delete_where_accumulates b es :
+    fold_left (fun r e => call "Where" [AExp e] r) es (Some (EDelete b))
+    = Some (EDelete (mkDel (d_with b) (d_table b) (d_alias b) (d_using b) (d_where b ++ es) (d_returning b))).
+  Proof.
+    revert b. induction es as [|e r IH]; intro b; cbn [fold_left].
+    - rewrite app_nil_r. now destruct b.
+    - change (call "Where" [AExp e] (Some (EDelete b)))
+        with (Some (EDelete (mkDel (d_with b) (d_table b) (d_alias b) (d_using b) (d_where b ++ [e]) (d_returning b)))).
+      rewrite IH. cbn. now rewrite <- app_assoc.
+  Qed.
+
   (* the single-valued options: the last call wins, whatever was set before *)
   Theorem limit_last_wins w c p a b :
     call "Limit" [AExp b] (call "Limit" [AExp a] (Some (ESelect w c p))) = call "Limit" [AExp b] (Some (ESelect w c p)).
